@@ -213,15 +213,16 @@ Qed.
 
 Lemma resolve_qn_tbl_stable : forall m q m' q',
   resolve_qn m q = Some (m', q') ->
-  forall p v, lookup p (tbl m) = Some v -> lookup p (tbl m') = Some v.
+  forall p v, p <> "" -> lookup p (tbl m) = Some v -> lookup p (tbl m') = Some v.
 Proof.
-  intros m [n l] m' q' H p v L. unfold resolve_qn in H; simpl in H.
+  intros m [n l] m' q' H p v NP L. unfold resolve_qn in H; simpl in H.
   destruct (ns_prefix n) as [|c pp].
   - destruct (dflt m) as [d|].
     + destruct (ns_eqb d n); [inversion H; subst; exact L|].
       destruct (add_namespace m _) as [[m2 n2]|] eqn:EA; [|discriminate].
       inversion H; subst. eapply add_namespace_tbl_stable; eauto.
-    + inversion H; subst; exact L.
+    + inversion H; subst; simpl. rewrite lookup_dset.
+      destruct (String.eqb p "") eqn:E; [apply String.eqb_eq in E; contradiction | exact L].
   - destruct (lookup (String c pp) (tbl m)) as [e|].
     + destruct (ns_eqb e n); [inversion H; subst; exact L|].
       destruct (add_namespace m _) as [[m2 n2]|] eqn:EA; [|discriminate].
@@ -232,9 +233,9 @@ Qed.
 
 Lemma resolve_tbl_stable : forall par m x m' r,
   resolve par m x = OK (m', r) ->
-  forall p v, lookup p (tbl m) = Some v -> lookup p (tbl m') = Some v.
+  forall p v, p <> "" -> lookup p (tbl m) = Some v -> lookup p (tbl m') = Some v.
 Proof.
-  intros par m x m' r H p v L. destruct x as [q|s|u]; simpl in H.
+  intros par m x m' r H p v NP L. destruct x as [q|s|u]; simpl in H.
   - destruct (resolve_qn m q) as [[m2 q2]|] eqn:E; [|discriminate].
     inversion H; subst. eapply resolve_qn_tbl_stable; eauto.
   - destruct s; [inversion H; subst; exact L|].
@@ -435,9 +436,20 @@ Proof.
         inversion H; subst. apply add_namespace_InvB in EA; [|exact I|simpl; discriminate].
         destruct EA as [I2 T]. split; [exact I2 | right; exact T].
     + inversion H; subst; clear H. split.
-      * split; simpl; try apply I.
+      * assert (TS : forall x, tbound m x ->
+                  tbound (mkNsm (dset "" n (tbl m)) (regd m) (Some n) (urimap m) (renmap m) (prenmap m)) x).
+        { intros x [A B]. split; [exact A|]. simpl. rewrite lookup_dset.
+          destruct (String.eqb (ns_prefix x) "") eqn:E; [apply String.eqb_eq in E; contradiction | exact B]. }
+        split; simpl.
+        -- apply uniq_dset. apply (ib_uniq _ I).
+        -- intros k x Hk. rewrite lookup_dset in Hk. destruct (String.eqb k "") eqn:E.
+           ++ apply String.eqb_eq in E. inversion Hk; subst. exact EP.
+           ++ eapply ib_key; eauto.
+        -- intros u x Hx. apply TS. eapply ib_uri; eauto.
+        -- intros a b Hab. apply TS. eapply ib_ren; eauto.
+        -- intros p x Hx. apply TS. eapply ib_pren; eauto.
         -- intros d Hd. inversion Hd; subst. exact EP.
-        -- intros x Hx. apply (ib_empty _ I) in Hx. congruence.
+        -- intros x Hx. rewrite lookup_dset in Hx. simpl in Hx. exact Hx.
       * left; simpl. split; [exact EP | reflexivity].
   - assert (ADD : forall m2 n2, add_namespace m (mkNs (String c p) (ns_uri n)) = Some (m2, n2) ->
                    InvB m2 /\ Bound m2 (mkQn n2 l)).
